@@ -2,6 +2,7 @@ import sys
 from decimal import Decimal
 from typing import Any
 
+from xsdata.codegen.exceptions import CodegenError
 from xsdata.codegen.mappers.mixins import RawDocumentMapper
 from xsdata.codegen.models import AttrType, Class
 from xsdata.codegen.utils import ClassUtils
@@ -56,6 +57,9 @@ class DictMapper(RawDocumentMapper):
             name: The attr name
             value: The data value to extract types and restrictions.
         """
+        if not name:
+            raise CodegenError("Empty json keys are not supported", type=target.qname)
+
         if isinstance(value, list):
             if not value:
                 cls.build_class_attribute(target, name, None)
